@@ -248,6 +248,18 @@ def match_known(v, known):
             sched = ' '.join((v.get('model') or {}).get('schedule', []) or [])
             if not all(x in sched for x in k['schedule_contains']):
                 continue
+        if k.get('schedule_order'):
+            # the listed steps occur in this order in the schedule
+            items = (v.get('model') or {}).get('schedule', []) or []
+            pos, okk = 0, True
+            for x in k['schedule_order']:
+                nxt = next((i for i in range(pos, len(items)) if x in items[i]), None)
+                if nxt is None:
+                    okk = False
+                    break
+                pos = nxt + 1
+            if not okk:
+                continue
         return k
     return None
 
